@@ -20,6 +20,15 @@ func (e *kvElection) validationLoop(ctx context.Context) {
 		interval = e.cfg.ValidationInterval
 	}
 
+	// A store that answers within half a heartbeat interval is healthy (the
+	// heartbeat's own per-refresh time-out is max(H/2, 1s)): with long heartbeat
+	// intervals the fixed default would time out on a healthy store and demote
+	// a leader whose record is fine.
+	timeout := defaultValidationTimeout
+	if half := e.cfg.HeartbeatInterval / 2; half > timeout {
+		timeout = half
+	}
+
 	ticker := time.NewTicker(interval)
 	defer ticker.Stop()
 
@@ -35,7 +44,7 @@ func (e *kvElection) validationLoop(ctx context.Context) {
 				return
 			}
 
-			validationCtx, cancel := context.WithTimeout(ctx, defaultValidationTimeout)
+			validationCtx, cancel := context.WithTimeout(ctx, timeout)
 			isValid, err := e.validateToken(validationCtx)
 			cancel()
 
